@@ -136,6 +136,10 @@ class C13(Check):
             ec.transport = Transport()
             loop_task = asyncio.ensure_future(ec.sendloop())
             tasks = [asyncio.ensure_future(ec.roundtrip(ECCmd.FPRD, 7 + i, 0x10, *pyargs, data=case["data"])) for i in range(n)]
+            # a request with OTHER formats of the same total size is in flight at the same time (issued last): a read-only
+            # format of single bytes
+            nbytes = sum(1 if it[0] == "pad" else it[1] for k_, v_ in case["args"] if k_ == "f" for it in items(v_))
+            sibling = asyncio.ensure_future(ec.roundtrip(ECCmd.FPRD, 99, 0x10, f"{nbytes}B")) if nbytes and case["data"] is None else None
             try:
                 for _ in range(6):
                     await asyncio.sleep(0)
@@ -148,7 +152,8 @@ class C13(Check):
                     length, dgs, _ = parse_frame(frame)
                     r = bytearray(frame)
                     for d in dgs[1:]:
-                        outs.append(bytes(d["data"]))
+                        if (d["addr"] & 0xffff) != 99:
+                            outs.append(bytes(d["data"]))
                         r[d["datapos"]:d["datapos"] + d["len"]] = self._resp(case, d["data"])
                         struct.pack_into("<H", r, d["datapos"] + d["len"], 1)
                     ec.datagram_received(bytes(r), None)
@@ -163,7 +168,7 @@ class C13(Check):
                 return outs[0], rets[0], self._resp(case, outs[0])
             finally:
                 loop_task.cancel()
-                for t in tasks:
+                for t in tasks + ([sibling] if sibling is not None else []):
                     t.cancel()
 
         async def go():
@@ -341,7 +346,7 @@ class C13(Check):
         return ("argument lists of 0-3 (format, values) groups over B H I Q b h i q, 8% floating-point e f d (values incl. -0.0, preceded by the same request with +0.0; oracle only), pad bytes, byte strings and counted items, "
                 "optional trailing read-only format, data = None / count (often 0) / bytes (often empty); 8% malformed "
                 "(out-of-range or wrong count); bus echoes or returns random bytes; 15% of the requests are issued by 2, 15, 16, 17 or 20 tasks at once "
-                "through the real send loop (17 and 20 overflow one frame). Non-trivial = has arguments and succeeded; "
+                "through the real send loop (17 and 20 overflow one frame), together with a request of OTHER formats of the same size. Non-trivial = has arguments and succeeded; "
                 "distinct by full case content")
 
     def distribution(self, cases, observed):
